@@ -246,5 +246,17 @@ theorem un_agree_aux (cB cG : Cfg) (hws : w.SupU false)
           exact ⟨this, this⟩
         | _ => simp [wellTyped] at hwt
       | td c => simp [Ty.supU] at hs
+      | union ucs hn =>
+        have h1 : un w cB (.union ucs hn) x = unAny w cB x := by simp only [un]
+        have h2 : un w cG (.union ucs hn) x = unAny w cG x := by simp only [un]
+        rw [h1, h2]
+        have hwa : wellTypedAny w x = true := by
+          cases x with
+          | none => simp [wellTypedAny]
+          | inst c fs =>
+            simp only [wellTyped, Bool.and_eq_true] at hwt
+            rw [wellTypedAny]; exact hwt.2
+          | _ => simp [wellTyped] at hwt
+        exact ⟨hAny x hx hwa hsk, hAny x hx hwa hsk⟩
 
 end CattrsModel.GenInterp
